@@ -515,13 +515,16 @@ def write_replay(prop: str, payload: dict) -> Path:
 
 
 def write_evidence(prop: str, tier: str, seed: int, coverage: dict, assumptions: list[str], wall: float, violations: int) -> None:
-    EVID.mkdir(exist_ok=True)
+    # evidence/ describes runs against /repo itself; a run pointed at a scratch worktree (seeded change, mutation sweep, builder)
+    # writes its evidence into the scratch area instead
+    evid = EVID if str(REPO) == "/repo" else WORK / "evidence-scratch"
+    evid.mkdir(parents=True, exist_ok=True)
     ev = {
         "property_id": prop, "tier": tier, "seed": seed, "level": "proof",
         "coverage": jsonable(coverage), "assumptions": assumptions, "wall_s": round(wall, 2),
         "violations": violations,
     }
-    (EVID / f"{prop}.json").write_text(json.dumps(ev, indent=1, sort_keys=True))
+    (evid / f"{prop}.json").write_text(json.dumps(ev, indent=1, sort_keys=True))
 
 
 _POOL_MOD = None
